@@ -71,6 +71,9 @@ impl WriteBatch {
 
 struct KeyValueStoreState {
     seq_no: u64,
+    // The sequence number of the last write to leave the wait list.  Every write at or below it
+    // is complete, so this, and not seq_no, is what reads take as their timestamp.
+    read_seq_no: u64,
     imm: Option<Arc<MemTable>>,
     imm_trigger: u64,
     mem: Arc<MemTable>,
@@ -115,6 +118,7 @@ impl KeyValueStore {
         seq_no += 1;
         let state = Mutex::new(KeyValueStoreState {
             seq_no,
+            read_seq_no: seq_no,
             imm,
             imm_trigger,
             mem,
@@ -347,7 +351,7 @@ impl KeyValueStore {
         for idx in superseded.into_iter() {
             batch.entries.remove(idx);
         }
-        let (mut wait_guard, memtable, log) = {
+        let (mut wait_guard, memtable, log, seq_no) = {
             let mut state = self.state.lock().unwrap();
             let wait_guard = self.wait_list.link(());
             let seq_no = state.seq_no + 1;
@@ -362,6 +366,7 @@ impl KeyValueStore {
                 wait_guard,
                 Arc::clone(&state.mem),
                 Arc::clone(&state.mem_log),
+                seq_no,
             )
         };
         let mut log_batch = sst::log::WriteBatch::default();
@@ -376,6 +381,7 @@ impl KeyValueStore {
         while !wait_guard.is_head() {
             state = wait_guard.naked_wait(state);
         }
+        state.read_seq_no = seq_no;
         drop(wait_guard);
         self.wait_list.notify_head();
         Ok(())
@@ -387,7 +393,7 @@ impl KeyValueStore {
             let mem = Arc::clone(&state.mem);
             let imm = state.imm.clone();
             let version = self.tree.take_snapshot();
-            (mem, imm, version, state.seq_no)
+            (mem, imm, version, state.read_seq_no)
         };
         *is_tombstone = false;
         let ret = mem.load(key, timestamp, is_tombstone)?;
@@ -414,7 +420,7 @@ impl KeyValueStore {
             let mem = Arc::clone(&state.mem);
             let imm = state.imm.clone();
             let version = self.tree.take_snapshot();
-            (mem, imm, version, state.seq_no)
+            (mem, imm, version, state.read_seq_no)
         };
         let mut cursors: Vec<Box<dyn Cursor>> = Vec::with_capacity(3);
         let mut mem_scan = mem.range_scan(start_bound, end_bound, timestamp)?;
